@@ -145,25 +145,33 @@ class Checker(object):
         self.rep = rep
         self.rng = random.Random(rep.seed * 86028121 + rep.shard)
 
-    def check(self, b, j):
+    def check(self, b, j, foreign=None):
         from pysmt.environment import get_env
         from pysmt.oracles import SizeOracle
         rep = self.rep
         env = get_env()
         rng = self.rng
         try:
-            f = B.build(b, env)
+            # (foreign: the formula lives in another environment than the
+            # one whose analyses are asked - every node number of it is
+            # also the number of some node the analyses have seen before)
+            f = B.build(b, foreign if foreign is not None else env)
         except Exception:
             rep.count('build_rejected')
             return
+        if foreign is not None:
+            rep.count('foreign_environment_cases')
         fb = canon(B.describe(f))
         tm = {}
         ft = B.typeof(fb, tm)
         sk = J.shape_key(fb, 1)
 
         def bad(what, key, msg):
-            rep.violation('%s/%s/%s' % (PROP, what, key), msg,
-                          {'bp': B.to_json(fb), 'kind': what})
+            rep.violation('%s/%s/%s' % (PROP, what, key), msg + (
+                ' [formula of another environment than the current one]'
+                if foreign is not None else ''),
+                {'bp': B.to_json(fb), 'kind': what,
+                 'foreign': foreign is not None})
         # ---- free variables
         try:
             fv = f.get_free_variables()
@@ -386,12 +394,15 @@ def run(rep):
             G.Cfg(max_depth=6, strings=False, share=0.5),
             G.Cfg(max_depth=4, qtypes=[B.BOOL, B.INT, G.US, B.BV(8)])]
     k = 0
+    foreign = None
     while k < n and not rep.out_of_time():
         if k % 200 == 0:
             common.fresh_env()
+            from pysmt.environment import Environment
+            foreign = Environment()
         g = G.Gen(rng, cfgs[k % len(cfgs)])
         ty = rng.choice([B.BOOL, B.BOOL, B.BOOL, B.INT, B.BV(3), G.A_II])
-        ck.check(g.term(ty), j)
+        ck.check(g.term(ty), j, foreign=foreign if k % 5 == 4 else None)
         j += 1
         k += 1
     if k < n:
@@ -401,4 +412,12 @@ def run(rep):
 def replay(case, rep):
     common.fresh_env()
     ck = Checker(rep)
-    ck.check(B.from_json(case['case']['bp']), 0)
+    foreign = None
+    if case['case'].get('foreign'):
+        # warm the current environment's analyses, then ask them about
+        # the formula built in a second environment
+        from pysmt.environment import Environment
+        for j, b in enumerate(special_cases()):
+            ck.check(b, j)
+        foreign = Environment()
+    ck.check(B.from_json(case['case']['bp']), 0, foreign=foreign)
